@@ -12,7 +12,9 @@ Local Open Scope list_scope.
 
 Definition default_lits : list expr :=
   [ELit (LNum NMI 0); ELit (LNum NInt 0); ELit (LBool false); ELit (LBool true); ELit (LStr EmptyString);
-   EListLit BMI []; EListLit BInt []; EListLit BBool []; EListLit BStr []].
+   EListLit BMI []; EListLit BInt []; EListLit BBool []; EListLit BStr [];
+   EPrim (PBox DA NMI) [ELit (LNum NMI 0)]; EPrim (PBox DA NInt) [ELit (LNum NInt 0)];
+   EPrim (PBox DB NMI) [ELit (LNum NMI 0)]; EPrim (PBox DB NInt) [ELit (LNum NInt 0)]].
 
 Section ListShrink.
   Context {A : Type} (sh : A -> list A).
